@@ -53,14 +53,15 @@ structure Pass (u : User α ε) (c : Cfg α) (s s' : St α) (flow : Flow) : Prop
 
 omit [LinearOrder α] [Add α] [Sub α] [Mul α] [Div α] [Neg α] [OfNat α 0] [OfNat α 1]
   [FloatLike α] in
-theorem evalAt_notThresh {m : GradMode} {x : Vec α} {c : Call α} (h : EvalAt m x c) :
-    NotThresh c := by
+theorem evalAt_notThresh {u : SFUser α ε} {m : GradMode} {x : Vec α} {c : Call α}
+    (h : EvalAt u m x c) : NotThresh c := by
   rcases h.1 with h | h <;> simp [NotThresh, h]
 
 omit [Div α] [Neg α] [OfNat α 1] [FloatLike α] in
-theorem lsCall_notThresh {m : GradMode} {x0 d lb ub : Vec α} {c : Call α}
-    (h : LSCall m x0 d lb ub c) : NotThresh c := by
-  rcases h.1 with h | h <;> simp [NotThresh, h]
+theorem lsCall_notThresh {u : User α ε} {m : GradMode} {x0 d lb ub : Vec α} {c : Call α}
+    (h : LSCall u m x0 d lb ub c) : NotThresh c := by
+  obtain ⟨_, h⟩ := h
+  exact evalAt_notThresh h
 
 theorem iterFail_pass (u : User α ε) (c : Cfg α) (s s' : St α) (flow : Flow)
     (hi : Inv4 u s) (hs : s.success = false) (h : iterFail s = (s', flow)) :
